@@ -1,6 +1,7 @@
 package harness
 
 import (
+	remoteexecution "github.com/bazelbuild/remote-apis/build/bazel/remote/execution/v2"
 	"bytes"
 	"context"
 	"fmt"
@@ -11,7 +12,9 @@ import (
 	"github.com/buildbarn/bb-storage/pkg/blobstore"
 	"github.com/buildbarn/bb-storage/pkg/blobstore/buffer"
 	"github.com/buildbarn/bb-storage/pkg/blobstore/readcaching"
+	"github.com/buildbarn/bb-storage/pkg/blobstore/configuration"
 	"github.com/buildbarn/bb-storage/pkg/blobstore/readfallback"
+	pb_blobstore "github.com/buildbarn/bb-storage/pkg/proto/configuration/blobstore"
 	"github.com/buildbarn/bb-storage/pkg/blobstore/replication"
 	"github.com/buildbarn/bb-storage/pkg/blobstore/slicing"
 	"github.com/buildbarn/bb-storage/pkg/digest"
@@ -31,6 +34,17 @@ func c17Composite(fallback bool) func(c *sim.RunCtx) {
 	return func(c *sim.RunCtx) {
 		t := c.T.Plan
 		objs := drawSimpleObjs(t, 2+t.Choose(5), "")
+		// a third of the runs: composite and replicator assembled by
+		// NewBlobAccessFromConfiguration over the model leaves
+		wcfg := t.Chance(1, 3)
+		if wcfg {
+			for i := range objs {
+				if len(objs[i].Data) == 0 {
+					objs[i].Data = []byte{0xE0, byte(i)}
+					objs[i].D = RefDigest("", remoteexecution.DigestFunction_SHA256, objs[i].Data)
+				}
+			}
+		}
 		strategy := t.Choose(nReplStrategies)
 		faultRate := []int{0, 0, 80}[t.Choose(3)]
 		clients := 1 + t.Choose(4)
@@ -51,7 +65,7 @@ func c17Composite(fallback bool) func(c *sim.RunCtx) {
 		if fallback {
 			kind = "read_fallback"
 		}
-		desc := fmt.Sprintf("%s strategy=%s placement=%v faultRate=%d clients=%d", kind, replStrategyNames[strategy], placement, faultRate, clients)
+		desc := fmt.Sprintf("%s strategy=%s placement=%v faultRate=%d clients=%d configured=%v", kind, replStrategyNames[strategy], placement, faultRate, clients, wcfg)
 		c.Sample["case"] = desc
 		c.Note("case %s plans=%v", desc, plans)
 		copying := strategy != rsNoop
@@ -79,13 +93,28 @@ func c17Composite(fallback bool) func(c *sim.RunCtx) {
 			clk := sim.NewClock(s)
 			var ba blobstore.BlobAccess
 			var writeTarget, other *modelStore
+			leaves := map[string]configuration.BlobAccessInfo{"front": {BlobAccess: front, DigestKeyFormat: digest.KeyWithoutInstance}, "back": {BlobAccess: back, DigestKeyFormat: digest.KeyWithoutInstance}}
 			if fallback {
 				// reads: primary then secondary, copying secondary -> primary; writes: primary
-				ba = readfallback.NewReadFallbackBlobAccess(front, back, newReplicator(strategy, back, front, clk, 2))
+				if wcfg {
+					var restore func()
+					ba, _, restore = buildComposite(c, s, clk, &pb_blobstore.BlobAccessConfiguration{Backend: &pb_blobstore.BlobAccessConfiguration_ReadFallback{ReadFallback: &pb_blobstore.ReadFallbackBlobAccessConfiguration{
+						Primary: leafConfig("front"), Secondary: leafConfig("back"), Replicator: replicatorConfig(strategy, 2)}}}, leaves)
+					defer restore()
+				} else {
+					ba = readfallback.NewReadFallbackBlobAccess(front, back, newReplicator(strategy, back, front, clk, 2))
+				}
 				writeTarget, other = front, back
 			} else {
 				// reads: fast then slow, copying slow -> fast; writes: slow
-				ba = readcaching.NewReadCachingBlobAccess(back, front, newReplicator(strategy, back, front, clk, 2))
+				if wcfg {
+					var restore func()
+					ba, _, restore = buildComposite(c, s, clk, &pb_blobstore.BlobAccessConfiguration{Backend: &pb_blobstore.BlobAccessConfiguration_ReadCaching{ReadCaching: &pb_blobstore.ReadCachingBlobAccessConfiguration{
+						Slow: leafConfig("back"), Fast: leafConfig("front"), Replicator: replicatorConfig(strategy, 2)}}}, leaves)
+					defer restore()
+				} else {
+					ba = readcaching.NewReadCachingBlobAccess(back, front, newReplicator(strategy, back, front, clk, 2))
+				}
 				writeTarget, other = back, front
 			}
 			ctx := context.Background()
